@@ -208,39 +208,50 @@ theorem trioUpdate_ok (hmin : Gen.TRIO_MIN_AMP = 1) (hmax : Gen.TRIO_MAX_AMP = 1
 
 /-! ### vault -/
 
-/-- invariant of a stored vault: fees in bounds and the asset is not a token-factory denom (such a
-    vault cannot be instantiated: its LP symbol is refused) -/
-def VaultCfg.inv (v : VaultCfg) : Prop := v.fees.ok = true ∧ v.asset.isTokenFactory = false
+/-- invariant of a stored vault: fees in bounds and no burn fee when the code classes the asset as a
+    token-factory denom (`has_factory_token`: every token-factory denom and some more shapes) -/
+def VaultCfg.inv (v : VaultCfg) : Prop :=
+  v.fees.ok = true ∧ (v.asset.codeSaysFactory = true → v.fees.c = 0)
+
+theorem AssetClass.tokenFactory_codeSays {a : AssetClass} (h : a.isTokenFactory = true) :
+    a.codeSaysFactory = true := by
+  cases a <;> simp_all [AssetClass.isTokenFactory, AssetClass.codeSaysFactory]
 
 theorem VaultCfg.inv_ok {v : VaultCfg} (h : v.inv) : v.ok = true := by
-  simp [VaultCfg.ok, h.1, h.2]
+  simp only [VaultCfg.ok, h.1, Bool.true_and, Bool.or_eq_true, Bool.not_eq_true', decide_eq_true_eq]
+  cases htf : v.asset.isTokenFactory
+  · exact Or.inl rfl
+  · exact Or.inr (h.2 (AssetClass.tokenFactory_codeSays htf))
 
-theorem vaultInstantiate_inv {via : Bool} {fees : Fees3} {a : AssetClass} {tf : Bool} {v : VaultCfg}
-    (h : vaultInstantiate via fees a tf = .ok v) : v.inv := by
+theorem vaultInstantiate_inv {via : Bool} {fees : Fees3} {a : AssetClass} {tf lenient : Bool} {v : VaultCfg}
+    (h : vaultInstantiate via fees a tf lenient = .ok v) : v.inv := by
   simp only [vaultInstantiate] at h
   split at h
   · cases h
-  · split at h
+  · next hb =>
+    split at h
     · next hv =>
       split at h
       · cases h
       · split at h
         · split at h
-          · next hs =>
-            cases h
+          · cases h
             refine ⟨(fees3_ok_iff _).1 hv, ?_⟩
-            cases a <;> simp_all [AssetClass.lpSymbolOk, AssetClass.isTokenFactory]
+            intro hc
+            simp only [Bool.and_eq_true, decide_eq_true_eq, not_and] at hb
+            have := hb hc
+            show fees.c = 0
+            omega
           · cases h
         · cases h
         · cases h
     · cases h
     · cases h
 
-/-- no write path creates a vault over a token-factory asset in the default build -/
+/-- with the stock LP-token code no write path creates a vault over a token-factory asset -/
 theorem vaultInstantiate_factory_rejected (via : Bool) (fees : Fees3) (tf : Bool) :
-    ∀ v, vaultInstantiate via fees .factory tf ≠ .ok v := by
+    ∀ v, vaultInstantiate via fees .factory tf false ≠ .ok v := by
   intro v h
-  have := (vaultInstantiate_inv h).2
   simp only [vaultInstantiate] at h
   split at h
   · cases h
@@ -251,8 +262,8 @@ theorem vaultInstantiate_factory_rejected (via : Bool) (fees : Fees3) (tf : Bool
     · cases h
     · cases h
 
-theorem vaultCreate_inv {fees : Fees3} {a : AssetClass} {tf : Bool} {v : VaultCfg}
-    (h : vaultCreate fees a tf = .ok v) : v.inv := by
+theorem vaultCreate_inv {fees : Fees3} {a : AssetClass} {tf lenient : Bool} {v : VaultCfg}
+    (h : vaultCreate fees a tf lenient = .ok v) : v.inv := by
   simp only [vaultCreate] at h
   split at h
   · cases h
@@ -269,7 +280,27 @@ theorem vaultUpdate_inv {via : Bool} {v v' : VaultCfg} {fees : Option Fees3} (hv
   split at h
   · cases h
   · split at h
-    · next f hf => cases h; exact ⟨applyFees_ok hv.1 hf, hv.2⟩
+    · next f hf =>
+      split at h
+      · cases h
+        have hf' : f = v.fees := by simpa [applyFees] using hf.symm
+        subst hf'
+        exact hv
+      · next nf =>
+        split at h
+        · cases h
+        · next hb =>
+          cases h
+          refine ⟨applyFees_ok hv.1 hf, ?_⟩
+          intro hc
+          simp only [Bool.and_eq_true, decide_eq_true_eq, not_and] at hb
+          have h0 := hb hc
+          have hfe : f = nf := by
+            simp only [applyFees] at hf
+            split at hf <;> first | (cases hf; rfl) | cases hf
+          subst hfe
+          show f.c = 0
+          omega
     · cases h
     · cases h
 
@@ -340,8 +371,8 @@ theorem distUpdate_ok (hmax : Gen.DISTRIBUTOR_MAX_GRACE_PERIOD = 30)
 theorem growthValid_iff (r : Nat) : growthValid r = true ↔ r ≤ 1000000000000000000 := by
   simp [growthValid, E18_val]
 
-theorem lairInstantiate_ok (hlim : Gen.LAIR_BONDING_ASSETS_LIMIT = 2) {r n : Nat} {k : Bool} {x : LairCfg}
-    (h : lairInstantiate r n k = .ok x) : x.ok = true := by
+theorem lairInstantiate_ok (hlim : Gen.LAIR_BONDING_ASSETS_LIMIT = 2) {r n : Nat} {k strict : Bool} {x : LairCfg}
+    (h : lairInstantiate r n k strict = .ok x) : x.ok = true := by
   simp only [lairInstantiate] at h
   split at h
   · cases h
@@ -486,7 +517,7 @@ theorem step_inv (K : Pinned) {c c' : Cfg} {op : Op} (hc : Inv c) (h : step c op
       exact { hc with trios := hts' }
     · cases h
     · cases h
-  | vaultInst via fees a tf =>
+  | vaultInst via fees a tf lenient =>
     simp only [step] at h
     split at h
     · next v hv =>
@@ -529,7 +560,7 @@ theorem step_inv (K : Pinned) {c c' : Cfg} {op : Op} (hc : Inv c) (h : step c op
         exact { hc with dist := fun d hd => by cases hd; exact hy' }
       · cases h
       · cases h
-  | lairInst r n k =>
+  | lairInst r n k strict =>
     simp only [step] at h
     split at h
     · next x hx =>
@@ -579,5 +610,130 @@ theorem reach_inv (K : Pinned) (ops : List Op) {c : Cfg} (hc : Inv c) : Inv (rea
     split
     · next c' h => exact ih (step_inv K hc h)
     · exact ih hc
+
+/-! ### the stock LP-token code: no vault over a token-factory asset -/
+
+/-- operations that hand the vault the stock cw20 code for its LP token -/
+def Op.stockLp : Op → Bool
+  | .vaultInst _ _ _ _ lenient => !lenient
+  | _ => true
+
+theorem vaultUpdate_asset {via : Bool} {v v' : VaultCfg} {fees : Option Fees3}
+    (h : vaultUpdate via v fees = .ok v') : v'.asset = v.asset := by
+  simp only [vaultUpdate] at h
+  split at h
+  · cases h
+  · split at h
+    · split at h
+      · cases h; rfl
+      · split at h
+        · cases h
+        · cases h; rfl
+    · cases h
+    · cases h
+
+theorem vaultInstantiate_asset {via : Bool} {fees : Fees3} {a : AssetClass} {tf l : Bool} {v : VaultCfg}
+    (h : vaultInstantiate via fees a tf l = .ok v) : v.asset = a := by
+  simp only [vaultInstantiate] at h
+  split at h
+  · cases h
+  · split at h
+    · split at h
+      · cases h
+      · split at h
+        · split at h
+          · cases h; rfl
+          · cases h
+        · cases h
+        · cases h
+    · cases h
+    · cases h
+
+theorem vaultCreate_asset {fees : Fees3} {a : AssetClass} {tf l : Bool} {v : VaultCfg}
+    (h : vaultCreate fees a tf l = .ok v) : v.asset = a := by
+  simp only [vaultCreate] at h
+  split at h
+  · cases h
+  · split at h
+    · cases h
+    · split at h
+      · exact vaultInstantiate_asset h
+      · cases h
+      · cases h
+
+theorem vaultCreate_factory_rejected (fees : Fees3) (tf : Bool) :
+    ∀ v, vaultCreate fees .factory tf false ≠ .ok v := by
+  intro v h
+  simp only [vaultCreate] at h
+  split at h
+  · cases h
+  · split at h
+    · cases h
+    · split at h
+      · exact vaultInstantiate_factory_rejected true fees tf _ h
+      · cases h
+      · cases h
+
+theorem step_no_token_factory_vault {c c' : Cfg} {op : Op} (hs : op.stockLp = true)
+    (hc : ∀ v ∈ c.vaults, v.asset.isTokenFactory = false) (h : step c op = .ok c') :
+    ∀ v ∈ c'.vaults, v.asset.isTokenFactory = false := by
+  cases op with
+  | vaultInst via fees a tf lenient =>
+    have hl : lenient = false := by simpa [Op.stockLp] using hs
+    subst hl
+    simp only [step] at h
+    split at h
+    · next x hx =>
+      cases h
+      intro v hv
+      rcases List.mem_append.1 hv with hv | hv
+      · exact hc v hv
+      · have hvx : v = x := by simpa using hv
+        subst hvx
+        have hasset : v.asset = a := by
+          cases via
+          · exact vaultInstantiate_asset (by simpa using hx)
+          · exact vaultCreate_asset (by simpa using hx)
+        rw [hasset]
+        cases a <;> try rfl
+        exfalso
+        cases via
+        · exact vaultInstantiate_factory_rejected false fees tf _ (by simpa using hx)
+        · exact vaultCreate_factory_rejected fees tf _ (by simpa using hx)
+    · cases h
+    · cases h
+  | vaultUpd via i fees =>
+    simp only [step] at h
+    split at h
+    · next vs hvs =>
+      cases h
+      exact updAt_forall (P := fun v => v.asset.isTokenFactory = false)
+        (fun x y hx hxy => by rw [vaultUpdate_asset hxy]; exact hx) hc hvs
+    · cases h
+    · cases h
+  | pairInst _ _ _ _ => simp only [step] at h; split at h <;> cases h; exact hc
+  | pairUpd _ _ _ => simp only [step] at h; split at h <;> cases h; exact hc
+  | trioInst _ _ _ _ => simp only [step] at h; split at h <;> cases h; exact hc
+  | trioUpd _ _ _ _ => simp only [step] at h; split at h <;> cases h; exact hc
+  | distInst _ _ => simp only [step] at h; split at h <;> cases h; exact hc
+  | distUpd _ _ =>
+    simp only [step] at h
+    split at h
+    · cases h
+    · split at h <;> cases h; exact hc
+  | lairInst _ _ _ _ => simp only [step] at h; split at h <;> cases h; exact hc
+  | lairUpd _ =>
+    simp only [step] at h
+    split at h
+    · cases h
+    · split at h <;> cases h; exact hc
+  | collInst => simp only [step] at h; cases h; exact hc
+  | collUpd _ =>
+    simp only [step] at h
+    split at h
+    · cases h
+    · split at h <;> cases h; exact hc
+  | advance _ => simp only [step] at h; cases h; exact hc
+
 
 end WW.Config
